@@ -23,6 +23,7 @@ Ties (this file):
 """
 from __future__ import annotations
 
+import contextlib
 import itertools
 import logging
 import os
@@ -37,6 +38,7 @@ import strax.processors.threaded_mailbox as tmm  # noqa: E402
 import strax.processors.single_thread as stm  # noqa: E402
 import strax.processors.post_office as pom  # noqa: E402
 import strax.storage.common as scm  # noqa: E402
+import strax.context as sctx  # noqa: E402
 from lib import sched as S  # noqa: E402
 
 ID = "C06"
@@ -89,6 +91,56 @@ class Injected(Exception):
     def __init__(self, ident):
         super().__init__(f"injected fault {ident}")
         self.ident = ident
+
+
+# =============================================================================================================
+# (0) the kill protocol of one mailbox: C05's correspondence (Model/Mailbox.lean, `c05.run`) on kill-heavy cases
+# =============================================================================================================
+def kill_cases(rng, n):
+    """configurations in which a kill is likely to arrive while the sender waits for room or a reader for a message"""
+    from props import c05
+    cases = []
+    for i in range(n):
+        if i % 3 == 0:
+            c = c05.random_config(rng, "kill")
+        else:
+            nsub = rng.randint(1, 2)
+            lazy = rng.random() < 0.3
+            nmsg = rng.randint(2, 5)
+            c = c05.mk_case(rng.choice([1, 1, 2]), lazy, "1" * nsub, [f"p{10 * (k + 1)}" for k in range(nmsg)], [],
+                            rng.choice(["u", "d", "u", "ud"]))
+        r = rng.random()
+        seed = rng.getrandbits(48)
+        if r < 0.4:
+            c["strat"] = dict(kind="random", seed=seed, stick=rng.choice([0.0, 0.5, 0.8]))
+        else:
+            c["strat"] = dict(kind="pct", seed=seed, depth=rng.randint(1, 4), est=40)
+        c["_out"] = c05.execute(c)
+        cases.append(c)
+    return cases
+
+
+def kill_oracle(case, out):
+    """C06 at the mailbox level, on the real run: once the mailbox is killed nothing is pushed any more
+    (`send` re-checks the flags after waiting), nobody stays blocked, and every thread ends"""
+    from props import c05
+    if not out.startswith("ok "):
+        return f"adapter answered {out[:60]}"
+    snaps, end, got, pcs = c05.parse_line(out)
+    killed_at = None
+    for i, sn in enumerate(snaps):
+        heap, _, _, flags, nsent, _ = sn
+        if flags[1] == "1":
+            if killed_at is None:
+                killed_at = (i, heap, nsent)
+            elif nsent != killed_at[2] or (heap != killed_at[1] and len(heap) > len(killed_at[1])):
+                return (f"a message was pushed into the mailbox after it had been killed: n_sent {killed_at[2]} -> {nsent}, "
+                        f"heap {killed_at[1]} -> {heap} (snapshot {killed_at[0]} -> {i})")
+    if c05.classify(case) == "malformed":
+        return None
+    if end == "deadlock":
+        return f"deadlock after a kill: unfinished {[p for p, v in pcs.items() if v == 'run']}"
+    return None
 
 
 # =============================================================================================================
@@ -627,6 +679,29 @@ def graph_classes(g):
     return out
 
 
+class QuietBar:
+    """stand-in for tqdm inside strax.context during the scheduled runs: tqdm keeps a class-level multiprocessing lock
+    and a real monitor thread, neither of which belongs into a run in which exactly one thread may move"""
+
+    def __init__(self, *a, **kw):
+        self.n = 0
+
+    def __enter__(self):
+        return self
+
+    def __exit__(self, *a):
+        return False
+
+    def close(self):
+        pass
+
+    def update(self, *a):
+        pass
+
+    def set_postfix_str(self, *a):
+        pass
+
+
 def cwait(fs, timeout=None, return_when=None):
     """cooperative stand-in for concurrent.futures.wait (strax.storage.common)"""
     fs = list(fs)
@@ -809,15 +884,15 @@ def run_pipeline(case):
                     raise
                 res["close"] = type(e).__name__
 
-    saved = (tmm.futures, scm.wait)
+    saved = (tmm.futures, scm.wait, sctx.tqdm)
     logging.disable(logging.CRITICAL)
     try:
-        tmm.futures, scm.wait = Fut, cwait
+        tmm.futures, scm.wait, sctx.tqdm = Fut, cwait, QuietBar
         with sc.patch(mbm):
             sc.spawn(consumer, "main")
             sc.run()
     finally:
-        tmm.futures, scm.wait = saved
+        tmm.futures, scm.wait, sctx.tqdm = saved
         logging.disable(logging.NOTSET)
     sc.join_real()
     kind, val = res.get("out", ("none", None))
@@ -1108,6 +1183,22 @@ def _worker_init():
     _pin()
 
 
+def warm_up():
+    """run one pipeline of every flavour in THIS process before forking: numba compiles strax's jitted helpers for the
+    harness dtype on first use (tens of seconds on a loaded machine, under a process-wide compiler lock) — inside a scheduled
+    run that would look like a task that never reaches a yield point"""
+    S.HANG_TIMEOUT = max(S.HANG_TIMEOUT, 600.0)
+    _pin()
+    try:
+        for gname, proc, workers in (("chain", "threaded_mailbox", None), ("multi", "threaded_mailbox", 2),
+                                     ("loader", "single_thread", None), ("diamond", "threaded_mailbox", None),
+                                     ("lag:4:8", "threaded_mailbox", None), ("tree", "single_thread", None)):
+            run_pipeline(dict(graph=gname, proc=proc, lazy=0, workers=workers, cap=8, fault=None, ident=0,
+                              strat=dict(kind="random", seed=3)))
+    finally:
+        _unpin()
+
+
 def _run_line(case):
     line, _ = run_pipeline(case)
     return line
@@ -1140,6 +1231,16 @@ RULE_PIPE = ("one real Context.get_iter run under the cooperative scheduler per 
 def run(ctx):
     rng = ctx.rng
     t0 = time.time()
+    # (0) kill protocol of one mailbox (C05's tie, kill-heavy)
+    from props import c05
+    with (c05.pinned() if hasattr(c05, "pinned") else contextlib.nullcontext()):
+        kcases = kill_cases(rng, ctx.pick(500, 5000))
+    kouts = {id(c): c.pop("_out") for c in kcases}
+    ctx.correspond("mailbox/kill", kcases, lambda c: kouts[id(c)], c05.op_line, kill_oracle, nontrivial=c05.nontrivial,
+                   rule="the real strax.Mailbox under sched.py vs `c05.run`, configurations with killer threads and failing sources; "
+                        "non-trivial = at least one message and two distinct threads in the schedule",
+                   branch=lambda c, o: f"{'lazy' if c['lazy'] else 'eager'}/kills={c['kills'] or '-'}/"
+                                       f"{o.split(' end=')[1].split(' ')[0] if ' end=' in o else '?'}")
     # (i) wiring
     wcases = [wire_case(rng) for _ in range(ctx.pick(400, 4000))]
     ctx.correspond("wire/random-components", wcases, lambda c: _guard(wire_impl, c), wire_op, wire_oracle,
@@ -1150,24 +1251,40 @@ def run(ctx):
     pcases = po_fixed_cases()
     for kind, n in (("clean", ctx.pick(500, 5000)), ("fault", ctx.pick(900, 9000)), ("malformed", ctx.pick(150, 1500))):
         pcases += [po_case(rng, kind) for _ in range(n)]
-    ctx.correspond("postoffice/scripts", pcases, po_impl, lambda c: "c06.po " + ";".join(c["ops"]), po_oracle,
-                   nontrivial=lambda c, o: any(x.startswith(("m", "fin", "raised", "closed")) for x in o[3:].split(" | ")[0].split(",")),
-                   rule=RULE_PO,
-                   branch=lambda c, o: f"{c['kind']}/raised={int('raised(' in o)}/masked={int('<Injected' in o)}/err={int('err(' in o)}")
+    po_outs = {id(c): po_impl(c) for c in pcases}
+    _by_shape(ctx, "postoffice/scripts", pcases, lambda c: po_outs[id(c)], po_oracle, to_op=lambda c: "c06.po " + ";".join(c["ops"]),
+              nontrivial=lambda c, o: any(x.startswith(("m", "fin", "raised", "closed")) for x in o[3:].split(" | ")[0].split(",")),
+              rule=RULE_PO,
+              branch=lambda c, o: f"{c['kind']}/raised={int('raised(' in o)}/masked={int('<Injected' in o)}/err={int('err(' in o)}")
     ctx.check_oracle("divider/corpus", divider_cases(), divider_probe, divider_oracle, exhaustive=True,
                      rule="thread-free witnesses of D28/D29: divide_outputs over a prepared source with one output force-killed",
                      branch=lambda c, o: f"closed={int(c['closed'])}/killed={c['killed']}/n={len(c['dicts'])}/{o.split(' ')[1].split(':')[0]}")
     ctx.note(f"wiring + PostOffice correspondence took {time.time() - t0:.0f}s")
     # (iii) pipelines under the scheduler
     t1 = time.time()
+    warm_up()
+    ctx.note(f"numba warm-up of the pipeline flavours took {time.time() - t1:.0f}s")
     jobs = jobs_default()
-    cases = pipeline_cases(rng, ctx.pick(2, 14)) + lag_cases(rng, ctx.pick(1, 6))
+    cases = pipeline_cases(rng, ctx.pick(1, 12)) + lag_cases(rng, ctx.pick(1, 5))
     outs = run_many(cases, jobs)
     table = {id(c): o for c, o in zip(cases, outs)}
-    ctx.check_oracle("pipeline/fault-injection", cases, lambda c: table[id(c)], pipe_oracle, rule=RULE_PIPE,
-                     nontrivial=lambda c, o: int(fields(o).get("steps", 0)) >= 10 or int(fields(o).get("fired", 0)) > 0,
-                     branch=pipe_branch, in_hyp=lambda c, o: not c.get("fault"))
+    _by_shape(ctx, "pipeline/fault-injection", cases, lambda c: table[id(c)], pipe_oracle, rule=RULE_PIPE,
+              nontrivial=lambda c, o: int(fields(o).get("steps", 0)) >= 10 or int(fields(o).get("fired", 0)) > 0,
+              branch=pipe_branch, in_hyp=lambda c, o: not c.get("fault"))
     ctx.note(f"pipeline runs: {len(cases)} in {time.time() - t1:.0f}s on {jobs} processes")
+
+
+def _by_shape(ctx, name, cases, impl, oracle, to_op=None, **kw):
+    """the engine keeps at most 5 violations per component: route the cases that show the shape of a listed finding
+    (`Dnn-shape: …`) into a component of their own, so that they can never crowd out a different violation"""
+    groups = {}
+    for c in cases:
+        msg = oracle(c, impl(c)) or ""
+        shape = msg.split(":")[0] if msg[:1] == "D" and "-shape" in msg.split(":")[0] else ""
+        groups.setdefault(shape, []).append(c)
+    for shape in sorted(groups):
+        comp = name if not shape else f"{name}/{shape}"
+        ctx.correspond(comp, groups[shape], impl, to_op, oracle, **kw)
 
 
 def _guard(fn, c):
@@ -1180,10 +1297,11 @@ def _guard(fn, c):
 def search(ctx):
     """an obligation broke: more schedules per fault position on the real code"""
     rng = ctx.rng
+    warm_up()
     cases = pipeline_cases(rng, 6)
     outs = run_many(cases, jobs_default())
     table = {id(c): o for c, o in zip(cases, outs)}
-    ctx.check_oracle("search/pipeline", cases, lambda c: table[id(c)], pipe_oracle, rule=RULE_PIPE, branch=pipe_branch)
+    _by_shape(ctx, "search/pipeline", cases, lambda c: table[id(c)], pipe_oracle, rule=RULE_PIPE, branch=pipe_branch)
 
 
 def replay(ctx, body):
@@ -1199,6 +1317,7 @@ def replay(ctx, body):
         out = po_impl(case)
         print("implementation output:", out)
         return po_oracle(case, out)
+    S.HANG_TIMEOUT = max(S.HANG_TIMEOUT, 600.0)
     _pin()
     try:
         out, _ = run_pipeline(case)
